@@ -84,7 +84,7 @@ PROPS = {
         "timeout": 1500,
     },
     "C08": {
-        "lean_modules": ["JrpcProofs.Props.C08", "JrpcProofs.Lemmas.Stream", "JrpcProofs.Facts.Stream", "JrpcProofs.Facts.Frames", "JrpcProofs.Props.Sweep", "JrpcProofs.Facts.Sweep", "JrpcProofs.Props.Forwarder", "JrpcProofs.Facts.Corr", "JrpcProofs.Trans.ChanMessage", "JrpcProofs.Trans.ChanClose"],
+        "lean_modules": ["JrpcProofs.Props.C08", "JrpcProofs.Lemmas.Stream", "JrpcProofs.Facts.Stream", "JrpcProofs.Facts.Frames", "JrpcProofs.Props.Sweep", "JrpcProofs.Facts.Sweep", "JrpcProofs.Props.Forwarder", "JrpcProofs.Facts.Corr", "JrpcProofs.Trans.ChanMessage", "JrpcProofs.Trans.ChanClose", "JrpcProofs.Trans.CloseChans"],
         "assumptions": [
             "as C07; 'eventually closed' is proved as enabledness of the close after each cause (PARTIAL: needs fairness and a consumer that keeps reading or cancels) and observed with a time-out in the scenarios",
         ],
@@ -121,7 +121,7 @@ PROPS = {
         "timeout": 2400,
     },
     "C18": {
-        "lean_modules": ["JrpcProofs.Props.C18", "JrpcProofs.Lemmas.Corr", "JrpcProofs.Facts.Corr", "JrpcProofs.Props.Sweep", "JrpcProofs.Facts.Sweep", "JrpcProofs.Facts.OneShot", "JrpcProofs.Facts.Stream", "JrpcProofs.Trans.Sweep"],
+        "lean_modules": ["JrpcProofs.Props.C18", "JrpcProofs.Lemmas.Corr", "JrpcProofs.Facts.Corr", "JrpcProofs.Props.Sweep", "JrpcProofs.Facts.Sweep", "JrpcProofs.Facts.OneShot", "JrpcProofs.Facts.Stream", "JrpcProofs.Trans.Sweep", "JrpcProofs.Trans.CloseChans"],
         "assumptions": [
             "hooks only delay goroutines; two log entries written by different goroutines around one channel rendezvous may come in either order and are reconciled by the replayer (tau steps are counted in the evidence)",
             "ids of calls that are inside doRequest at the same time differ (id counter; int64 to float64 keys are injective below 2^53 calls)",
